@@ -13,19 +13,30 @@ EXTENDS Integers, Sequences
 V(base, step, mod, i) == base + step * (i % mod)
 
 \* kind "hash":  h_0 = 0,  h_i = (h_{i-1} * w + v_i) % m        (statements executed in order)
-RECURSIVE HashFrom(_, _, _, _, _, _, _, _)
-HashFrom(w, m, base, step, mod, n, i, h) ==
-  IF i > n THEN h ELSE HashFrom(w, m, base, step, mod, n, i + 1, (h * w + V(base, step, mod, i)) % m)
+\* HashRange folds units lo..hi into h.  Ranges are halved down to 64 units so that TLC's evaluation
+\* stack stays shallow (a 16384-deep recursion makes every JVM collection scan a huge stack).
+RECURSIVE HashRange(_, _, _, _, _, _, _, _)
+HashRange(w, m, base, step, mod, lo, hi, h) ==
+  IF lo > hi THEN h
+  ELSE IF hi - lo < 64
+       THEN HashRange(w, m, base, step, mod, lo + 1, hi, (h * w + V(base, step, mod, lo)) % m)
+       ELSE LET mid == (lo + hi) \div 2 IN
+            HashRange(w, m, base, step, mod, mid + 1, hi, HashRange(w, m, base, step, mod, lo, mid, h))
 
 \* kind "nest":  E_{n+1} = 0,  E_i = (v_i + w * E_{i+1}) % m    (one right-nested expression)
-RECURSIVE NestFrom(_, _, _, _, _, _, _)
-NestFrom(w, m, base, step, mod, i, e) ==
-  IF i < 1 THEN e ELSE NestFrom(w, m, base, step, mod, i - 1, (V(base, step, mod, i) + w * e) % m)
+\* NestRange folds units hi down to lo into e.
+RECURSIVE NestRange(_, _, _, _, _, _, _, _)
+NestRange(w, m, base, step, mod, lo, hi, e) ==
+  IF lo > hi THEN e
+  ELSE IF hi - lo < 64
+       THEN NestRange(w, m, base, step, mod, lo, hi - 1, (V(base, step, mod, hi) + w * e) % m)
+       ELSE LET mid == (lo + hi) \div 2 IN
+            NestRange(w, m, base, step, mod, lo, mid, NestRange(w, m, base, step, mod, mid + 1, hi, e))
 
 Kinds == {"hash", "nest", "single"}
 Checksum(kind, w, m, base, step, mod, n) ==
-  CASE kind = "hash"   -> HashFrom(w, m, base, step, mod, n, 1, 0)
-    [] kind = "nest"   -> NestFrom(w, m, base, step, mod, n, 0)
+  CASE kind = "hash"   -> HashRange(w, m, base, step, mod, 1, n, 0)
+    [] kind = "nest"   -> NestRange(w, m, base, step, mod, 1, n, 0)
     [] kind = "single" -> V(base, step, mod, n) % m          \* only unit n is observed (select)
 
 \* the reference is defined when nothing can leave TLC's 32-bit integers
